@@ -432,3 +432,12 @@ def edge_quantities(tier, seed):
              f"node-centred data of rank 1..3 (random, constant, integer-valued), gradient with and without normalisation, stacked-vs-"
              f"separate, cached tables re-read, setter-supplied distances; uxarray's njit functions run compiled")
     return result(run.cases, len(names), run.failures, bound, samples)
+
+
+
+def consumers(tier, seed):
+    """the edge distances a grid reports are unchanged by operations that only read them (shared machinery: standins.C03.consumers - every watched variable is compared with a copy taken before each of 20
+    read-only operations: differences, gradients, aggregations, integration, remapping, subsetting, tree queries, plotting
+    conversions, exports, area / bounds / dual construction)"""
+    from .C03 import consumers as _consumers
+    return _consumers(tier, seed, tables=('edge_node_distances', 'edge_face_distances'), oracle_after=False)
